@@ -219,11 +219,13 @@ class DocGen:
             marks = self.mark_set(R, parent, 0.4 if inline_parent else 0.15)
             if a == "text":
                 child = mk("text", {}, None, marks, self.text(R))
-                if kids and kids[-1]["t"] == "text" and rm.same_set(kids[-1]["m"], marks):
-                    kids[-1] = mk("text", {}, None, kids[-1]["m"], kids[-1]["x"] + child["x"])
-                else:
-                    kids.append(child)
                 budget -= 2
+                if kids and kids[-1]["t"] == "text" and rm.same_set(kids[-1]["m"], marks):
+                    # same markup as the previous text node: this only lengthens that node (no new child)
+                    kids[-1] = mk("text", {}, None, kids[-1]["m"], kids[-1]["x"] + child["x"])
+                    max_kids -= 1
+                    continue
+                kids.append(child)
             else:
                 child = self.node(R, a, depth - 1, budget // 2, marks)
                 kids.append(child)
